@@ -52,6 +52,10 @@ def expected_model(c):
         return " ".join(x.split(":")[0] for x in go.split(" ")) + (" lin=skip" if "hang=BAD" in go else " lin=ok")
     if op == "trmeta":
         return go
+    if op in ("poolx", "trtail"):
+        if go.startswith(("CRASH", "HANG", "SETUP", "crash=")):
+            return "own=BAD ok=BAD" if op == "poolx" else "own=BAD serve=BAD ids=BAD"
+        return " ".join(x.split(":")[0] for x in go.split(" "))
     if op == "batchrd":
         if go.startswith(("CRASH", "HANG", "SETUP", "crash=")):
             return "own=BAD acct=BAD serve=BAD"
@@ -72,7 +76,7 @@ def generate(ctx=None):
 
 
 
-MON_KEYS = dict(batchrd=("own", "acct", "serve", "crash"), trcut=("cut", "deliv", "hang", "ids", "fail"), trsplit=("split",), trpage=("pure",),
+MON_KEYS = dict(batchrd=("own", "acct", "serve", "crash"), poolx=("own", "ok", "crash"), trtail=("own", "serve", "ids"), trcut=("cut", "deliv", "hang", "ids", "fail"), trsplit=("split",), trpage=("pure",),
                 muxcut=("cut", "hang", "post"), trmeta=("recover",))
 
 CUT_WHAT = {
@@ -90,6 +94,8 @@ CUT_WHAT = {
             "(C06_batch_close_at_boundary_or_closed)",
     "serve": "after a Batch.Close that left the connection open another call on the Conn failed (or Close itself never returned): it read left-over "
              "bytes of the fetch response instead of its own answer",
+    "ok": "a Batch read or Close failed on a well-formed compressed record batch while Batches were open on other Conns "
+          "(the pooled decompression buffer is shared by two live readers: C06_pool_buffer_exclusive needs one release per acquire)",
     "crash": "the scenario's process died: fatal runtime error (sync: unlock of unlocked mutex — the read lock was released twice, "
              "C06_batch_close_idempotent) or a panic",
     "post": "after a response was cut, a later operation on the same kafka.Conn did not fail, or still put a request on the wire",
@@ -126,7 +132,7 @@ def judge_monitor_case(c, m, keys):
 
 def _monitor_family(ctx, flags, rule, extra_key):
     model = L.ocaml_build("c06")
-    base = dict(av=0, late=0, cut=0, split=0, page=0, muxcut=0, meta=0, batchrd=0)
+    base = dict(av=0, late=0, cut=0, split=0, page=0, muxcut=0, meta=0, batchrd=0, tail=0, poolx=0)
     base.update(flags)
     out, dt = run_harness(ctx, 0, 0, **base)
     cases = L.parse_cases(out)
@@ -173,7 +179,7 @@ def setup():
     L.ocaml_build("c06")
 
 
-def run_harness(ctx, n, big, av=4, seed=None, late=None, cut=None, split=None, page=None, muxcut=None, meta=None, batchrd=None):
+def run_harness(ctx, n, big, av=4, seed=None, late=None, cut=None, split=None, page=None, muxcut=None, meta=None, batchrd=None, tail=None, poolx=None):
     gobin = L.go_build("c06")
     rc, out, err, dt = L.sh([gobin, "-seed", str(seed if seed is not None else ctx.seed), "-n", str(n),
                              "-big", str(big), "-av", str(av), "-late", str(late if late is not None else ctx.scale(24, 300)),
@@ -182,7 +188,9 @@ def run_harness(ctx, n, big, av=4, seed=None, late=None, cut=None, split=None, p
                              "-page", str(page if page is not None else ctx.scale(12, 200)),
                              "-muxcut", str(muxcut if muxcut is not None else ctx.scale(24, 400)),
                              "-meta", str(meta if meta is not None else ctx.scale(10, 100)),
-                             "-batchrd", str(batchrd if batchrd is not None else ctx.scale(60, 1000))], timeout=1500)
+                             "-batchrd", str(batchrd if batchrd is not None else ctx.scale(60, 1000)),
+                             "-tail", str(tail if tail is not None else ctx.scale(30, 600)),
+                             "-poolx", str(poolx if poolx is not None else ctx.scale(24, 400))], timeout=1500)
     if rc != 0:
         raise L.Fail("correspondence", "harness cmd/c06 crashed", (out[-1500:] + err[-2500:]))
     return out, dt
@@ -233,9 +241,9 @@ def correspondence(ctx):
                                      what="bytes left over from an abandoned ApiVersions exchange were delivered to the next call as its response",
                                      detail=c["line"][:400] + " -> " + c["go"][:200], input=inp))
                 continue
-        if c["op"] == "batchrd" and c["go"].startswith(("CRASH", "HANG")):
+        if c["op"] in ("batchrd", "poolx") and c["go"].startswith(("CRASH", "HANG")):
             c = dict(c, go="crash=BAD:" + c["go"][:100].replace(" ", "_") + " own=ok acct=ok serve=ok")
-        if c["op"] in ("trcut", "trsplit", "trpage", "muxcut", "trmeta", "batchrd"):
+        if c["op"] in ("trcut", "trsplit", "trpage", "muxcut", "trmeta", "batchrd", "poolx", "trtail"):
             if c["op"] == "trpage" and c["go"].startswith("ERR"):
                 c = dict(c, go="pure=BAD:" + c["go"])
             pf, cf = judge_monitor_case(c, m, MON_KEYS[c["op"]])
@@ -284,6 +292,9 @@ def correspondence(ctx):
                                      detail=json.dumps(dict(case=c["line"][:800], go=c["go"][:300], model=str(m)[:300], want=want[:300])),
                                      input=None))
     notes = []
+    flaky = [c for c in cases if "flaky-retry" in c["feats"]]
+    if flaky:
+        notes.append("batchrd: %d scenario(s) reported a byte-accounting failure that did not reproduce on an immediate re-run of the same scenario (counted as passed): %s" % (len(flaky), flaky[0]["line"][:300] if "line" in flaky[0] else flaky[0]["args"][:300]))
     if livelocks:
         notes.append("OBSERVATION (liveness, outside C06's statement; not a failure): when the broker repeats an answer, the stale "
                      "frame at the head of the stream makes two or more waiters spin in (*Conn).waitResponse forever (Peek(8) is served "
@@ -304,7 +315,7 @@ def correspondence(ctx):
                      "deadline, ctx cancel / deadline) checked by linearisation search against the extracted model (projection: order of requests "
                      "at the broker, order of complete answer frames per connection, outcome class per call); muxbig / trbig = 2-16 goroutines x "
                      "3-10 payload-tagged calls, predicate only (every returned value carries the caller's tag, every failure is an error); "
-                     "trlate = one Transport call whose context deadline expires mid-exchange, the broker answers LATE (released by the next request on that connection / timed), 1-3 followers of the same connection group (fc, lo, of) within the idle timeout; the whole wire journal (conn, correlation id per request and answer frame) and the call results go through the monitors extracted from Model/TransportPool.v (mon_delivery, mon_ids, mon_fail);  trsplit = one Transport call that is SPLIT into several exchanges (listoffsets with several (partition, timestamp) questions over a 2-4 broker cluster, listgroups over all brokers; some broker connections pre-warmed, per-answer and handshake delays) judged by mon_split: every question gets exactly the answer the broker produced for it;  batchrd = one kafka.Conn, a fetch answer with several v1 / v2 batches (some gzip / snappy) whose values are copies of a forged ListOffsets frame for the next reader's correlation id; random Batch script (ReadMessage, Read with larger / equal / short buffer, a prefix of the messages), Close once or twice, hwm == offset, slow-drip past the read deadline, stop inside a compressed batch; 0-3 other tagged calls wait in waitResponse (answers held until Close returned and the byte accounting was taken) and one follows; each scenario in a child process (mon_batch_own / _acct / _serve);  muxcut = 2-3 concurrent operations on one kafka.Conn, the first answer cut at byte k (closed / silent): all return an error before the watchdog, nothing is written afterwards (mon_conn_cut + linearisation);  trmeta = first metadata response of a fresh Transport cut: Client.Metadata and a Writer recover (mon_recover);  trpage = 4-6 Client.Fetch calls on one Transport, record batches filled with the asking call's letter, call 0 closes the (nil / empty / non-empty) key and the value of each record it is done with while the other calls are served between its records (single P): no call reads a foreign byte (mon_pure);  trcut = the answer to one Transport call cut after k bytes (then closed / silent), 1-3 followers of the same connection group must each get their own answer on a fresh connection within their deadline (monitors mon_cut, mon_nohang, mon_delivery, mon_ids, mon_fail);  avopen / avstale = regression of the former ApiVersions defect (time-out inside the body must close; no left-over bytes delivered).  non-trivial = anything but a single undisturbed call",
+                     "trlate = one Transport call whose context deadline expires mid-exchange, the broker answers LATE (released by the next request on that connection / timed), 1-3 followers of the same connection group (fc, lo, of) within the idle timeout; the whole wire journal (conn, correlation id per request and answer frame) and the call results go through the monitors extracted from Model/TransportPool.v (mon_delivery, mon_ids, mon_fail);  trsplit = one Transport call that is SPLIT into several exchanges (listoffsets with several (partition, timestamp) questions over a 2-4 broker cluster, listgroups over all brokers; some broker connections pre-warmed, per-answer and handshake delays) judged by mon_split: every question gets exactly the answer the broker produced for it;  poolx = 2-3 kafka.Conn in one process (single P): an optional poisoning fetch (empty message set below the high watermark / set cut in its first batch header / partition error code), then Batches open on all Conns at once over compressed (gzip / snappy / lz4 / zstd, v1 and v2) batches whose values are tagged per Conn and record, read alternately, closed in any order: every value is the Conn's own next record, nothing fails (mon_batch_own, mon_all_served);  trtail = a Fetch through the Transport whose record set ends with a truncated batch of 1-60 bytes crafted as a frame header for the next correlation id, then 1-2 more tagged round trips on the pooled connection: all get their own answer (mon_batch_own, mon_all_served, mon_ids);  batchrd = one kafka.Conn, a fetch answer with several v1 / v2 batches (some gzip / snappy) whose values are copies of a forged ListOffsets frame for the next reader's correlation id; random Batch script (ReadMessage, Read with larger / equal / short buffer, a prefix of the messages), Close once or twice, hwm == offset, slow-drip past the read deadline, stop inside a compressed batch; 0-3 other tagged calls wait in waitResponse (answers held until Close returned and the byte accounting was taken) and one follows; each scenario in a child process (mon_batch_own / _acct / _serve);  muxcut = 2-3 concurrent operations on one kafka.Conn, the first answer cut at byte k (closed / silent): all return an error before the watchdog, nothing is written afterwards (mon_conn_cut + linearisation);  trmeta = first metadata response of a fresh Transport cut: Client.Metadata and a Writer recover (mon_recover);  trpage = 4-6 Client.Fetch calls on one Transport, record batches filled with the asking call's letter, call 0 closes the (nil / empty / non-empty) key and the value of each record it is done with while the other calls are served between its records (single P): no call reads a foreign byte (mon_pure);  trcut = the answer to one Transport call cut after k bytes (then closed / silent), 1-3 followers of the same connection group must each get their own answer on a fresh connection within their deadline (monitors mon_cut, mon_nohang, mon_delivery, mon_ids, mon_fail);  avopen / avstale = regression of the former ApiVersions defect (time-out inside the body must close; no left-over bytes delivered).  non-trivial = anything but a single undisturbed call",
                 samples=[c["line"][:260] + " | " + c["go"][:100] for c in cases[:2] + cases[len(cases)//3:len(cases)//3+2]
                          + cases[2*len(cases)//3:2*len(cases)//3+2] + cases[-2:]],
                 extra=dict(per_op=per_op, tagged_calls_ok=ok_calls, tagged_calls_err=err_calls,
